@@ -23,7 +23,8 @@ def step (line : String) : String :=
       | none => "bad-op"
     else "bad-op"
   | ["msg", k, n] =>
-    if (k = "shmsg" ∨ k = "ctrlreq" ∨ k = "ctrlresp") ∧ n.toNat?.isSome then "ok big=0 parse=ok" else "bad-op"
+    if (k = "shmsg" ∨ k = "ctrlreq" ∨ k = "ctrlresp" ∨ k = "shopen" ∨ k = "fupmeta" ∨ k = "fdownmeta")
+        ∧ n.toNat?.isSome then "ok big=0 parse=ok" else "bad-op"
   | ["stall", n, ms] =>
     match n.toNat?, ms.toNat? with
     | some n, some _ => s!"ok frames={(chunkLens exit.bufSize n).length} rx=equal"
